@@ -1,5 +1,4 @@
 package main
 
-func ruleLEX1(c *Ctx) {}
 func ruleACT1(c *Ctx) {}
 func ruleACT3(c *Ctx) {}
